@@ -31,6 +31,25 @@ def fmt(d):
     return d.strftime("%Y/%m/%d")
 
 
+def first_planting(spec):
+    """First planting date on/after the start of the window."""
+    from . import spec as S_
+    st = S_.d(spec["start"])
+    m, dd = [int(x) for x in spec["crop"]["planting"].split("/")]
+    p0 = dt.date(st.year, m, dd)
+    return p0 if p0 >= st else dt.date(st.year + 1, m, dd)
+
+
+def et0_spike(rng, spec):
+    """Add one single day of extreme reference ET inside the first season (synthetic weather)."""
+    p0 = first_planting(spec)
+    L = crop_len_days(spec["crop"]["name"])
+    spec["weather"].setdefault("episodes", []).append(
+        {"var": "ReferenceET", "from": fmt(p0 + dt.timedelta(days=int(rng.integers(5, max(6, L - 10))))),
+         "days": 1, "value": float(pick(rng, [18.0, 25.0, 40.0]))})
+    return True
+
+
 def add_years(d, n):
     try:
         return d.replace(year=d.year + n)
@@ -200,6 +219,9 @@ def soil_spec(rng, zmax, p_custom=0.3, p_dz=0.25, p_opts=0.35, low_ksat=False, p
                 kw[name] = pick(rng, vals)
         if "evap_z_min" in kw and kw.get("evap_z_max", 0.3) < kw["evap_z_min"]:
             kw["evap_z_max"] = max(0.3, kw["evap_z_min"])
+        if chance(rng, 0.1):
+            # an evaporation layer that cannot expand
+            kw["evap_z_min"] = kw["evap_z_max"] = float(pick(rng, [0.15, 0.2, 0.3]))
     return s
 
 
@@ -374,6 +396,14 @@ def gw_spec(rng, start, end, depths=(0.3, 0.8, 1.5, 2.5, 6.0, 30.0), p_multi=0.4
         for j in range(1, len(vals)):
             if chance(rng, 0.3):
                 vals[j] = vals[j - 1]       # a plateau: the table did not move between two observations
+        if chance(rng, 0.3):
+            # a monitoring record that is longer than the simulated window
+            if chance(rng, 0.6):
+                offs = [-int(rng.integers(5, 400))] + offs
+                vals = [round(max(0.1, base + float(rng.normal(0, 0.6))), 2)] + vals
+            if chance(rng, 0.6):
+                offs = offs + [span + int(rng.integers(5, 400))]
+                vals = vals + [round(max(0.1, base + float(rng.normal(0, 0.6))), 2)]
         return {"method": method, "dates": [fmt(start + dt.timedelta(days=o)) for o in offs],
                 "values": vals}
     return {"method": "Constant", "dates": [fmt(start)], "values": [float(pick(rng, list(depths)))]}
@@ -384,7 +414,10 @@ def co2_spec(rng, y0, y1):
     if r < 0.6:
         return None
     if r < 0.8:
-        return {"constant": float(pick(rng, [250, 369.41, 400, 550, 800, 2500]))}
+        c = {"constant": float(pick(rng, [250, 369.41, 400, 550, 800, 2500]))}
+        if rng.random() < 0.25:
+            c["ref"] = float(pick(rng, [330.0, 400.0, 420.0]))   # a reference other than the year-2000 default
+        return c
     a = float(pick(rng, [300, 369.41, 420]))
     if rng.random() < 0.4:
         # sparse series (knots every 5 years, like projections): years in between are interpolated
@@ -491,6 +524,10 @@ def add_episodes(rng, w, p0, L):
     if chance(rng, 0.1):
         eps.append({"var": "ReferenceET", "from": fmt(p0 + dt.timedelta(days=int(rng.integers(0, L)))),
                     "days": int(rng.integers(3, 30)), "value": float(pick(rng, [0.1, 20.0]))})
+    if chance(rng, 0.2):
+        # one single day of extreme evaporative demand (far outside the spread of the record)
+        eps.append({"var": "ReferenceET", "from": fmt(p0 + dt.timedelta(days=int(rng.integers(0, L)))),
+                    "days": 1, "value": float(pick(rng, [18.0, 25.0, 40.0]))})
     if eps:
         w["episodes"] = eps
 
